@@ -64,6 +64,7 @@ def setup(rep, tier):
     rep.minimum('R18.8', 1)
     rep.minimum('R18.9', 2)
     rep.minimum('R18.10', 1)
+    rep.minimum('R18.11', 2)
 
 
 def within(v, lo, hi):
@@ -848,6 +849,7 @@ def r18_9(rep, prog):
     dequantiser every `*prev_ind += (x << 1) - threshold` is followed, before the index is turned into a gain, by an
     upper clamp of *prev_ind.  Without it the encoder carries 64 where the decoder carries 63."""
     n = 0
+    bounds = {}
     for fname in ('silk_gains_quant', 'silk_gains_dequant'):
         if not prog.has_fn(fname):
             continue
@@ -864,6 +866,12 @@ def r18_9(rep, prog):
             if any(sx.kind(y) == 'cond' for y in sx.walk(x[2])) or (sx.kind(sx.strip(x[2])) == 'call' and 'min' in (sx.callee_name(sx.strip(x[2])) or '')):
                 clamps.add(b)
         uses = {b for b, i, x in cf.find(lambda x: x[0] == 'call' and sx.callee_name(x) == 'silk_log2lin')}
+        # the upper bound each side clamps the running index to (largest integer constant of its clamp expressions)
+        ub = [max([sx.int_val(y) for y in sx.walk(x[2]) if sx.int_val(y) is not None] or [None]) for b, i, x in cf.find(lambda x: x[0] == 'assign' and is_prev(x[1]))
+              if any(sx.kind(y) == 'cond' for y in sx.walk(x[2])) or (sx.kind(sx.strip(x[2])) == 'call' and any(t in (sx.callee_name(sx.strip(x[2])) or '') for t in ('min', 'LIMIT', 'limit')))]
+        ub = [u for u in ub if u is not None]
+        if ub:
+            bounds[fname] = (max(ub), '%s:%s' % (f.file, f.line))
         for b, i, x in dbl:
             n += 1
             inst = '%s:%s clamps the running gain index after a double-step update' % (prog.config, fname)
@@ -873,6 +881,15 @@ def r18_9(rep, prog):
                 rep.holds('R18.9', inst, where, 'an upper clamp lies between the update and the gain look-up')
             else:
                 rep.violated('R18.9', inst, where, 'no clamp of *prev_ind lies on every path from `%s` to the gain look-up: the index can leave the table (64) on this side only' % sx.show(x)[:60], key=fname + ':double-step-clamp')
+    if len(bounds) == 2:
+        n += 1
+        (qa, qw), (da, dw) = bounds['silk_gains_quant'], bounds['silk_gains_dequant']
+        inst = '%s:quantiser and dequantiser clamp the running gain index to the same top level' % prog.config
+        if qa == da:
+            rep.holds('R18.9', inst, qw, 'both %d' % qa)
+        else:
+            rep.violated('R18.9', inst, qw, 'the quantiser lets the index reach %d, the dequantiser %d: after a large upward jump the encoder carries an index the decoder does not, and every later delta-coded gain differs' % (qa, da),
+                         key='gain-index-top-level')
     return n
 
 
@@ -961,7 +978,54 @@ def re_norm(name):
     return re.sub(r'_(FLP|FIX)$', '', name)
 
 
+# ------------------------------------------------------------------ R18.11
+def r18_11(rep, prog):
+    """step-down recursion of the inverse prediction gain: every reflection coefficient is formed by shifting an AR
+    coefficient left by 31-QA bits, which only means what it should while the coefficient is within +-A_LIMIT.  So each
+    such formation is preceded, in the same loop iteration (or, for the last one, after the loop), by the limit test that
+    returns 0 - a test inside the loop does not cover the coefficient read after it."""
+    n = 0
+    for f in prog.functions_all:
+        if not f.file.startswith('silk/') or 'inverse_pred_gain' not in f.name or f.file.startswith('silk/x86') or f.file.startswith('silk/arm'):
+            continue
+        arr = [k for k, q in enumerate(f.params) if '*' in q.get('type', '') and 'int32' in q.get('type', '')]
+        if not arr:
+            continue
+        pk = ('param', arr[0])
+        cf = cfgm.CFG(f)
+        loops = cf.natural_loops()
+
+        def inner(b):
+            best = None
+            for h, latch, body in loops:
+                if b in body and (best is None or len(body) < len(best[1])):
+                    best = (h, body)
+            return best[0] if best else None
+        # limit guards: conditions comparing an element of the array with a constant, whose failing edge returns 0
+        gblocks = []
+        for b in cf.blocks:
+            c = cf.cond(b)
+            if c is None:
+                continue
+            if any(sx.kind(y) == 'bin' and y[1] in ('>', '<', '>=', '<=') and sx.kind(sx.strip(y[2])) == 'idx' and sx.key(sx.strip(sx.strip(y[2])[1])) == pk and sx.int_val(sx.strip(y[3])) is not None for y in sx.walk(c)):
+                gblocks.append(b)
+        for b, i, x in cf.find(lambda x: x[0] == 'assign' and sx.kind(sx.strip(x[1])) == 'local' and
+                               any(sx.kind(y) == 'bin' and y[1] == '<<' and any(sx.kind(z) == 'idx' and sx.key(sx.strip(z[1])) == pk for z in sx.walk(y[2])) for y in sx.walk(x[2]))):
+            n += 1
+            rep.functions.add(f.name)
+            inst = '%s:%s tests the coefficient against the limit before forming the reflection coefficient (line %s)' % (prog.config, f.name, sx.line(x))
+            where = '%s:%s' % (f.file, sx.line(x))
+            ok = any(cf.dominates(g, b) and g != b and inner(g) == inner(b) for g in gblocks)
+            if ok:
+                rep.holds('R18.11', inst, where, 'a limit test of the same iteration / after the loop dominates it')
+            else:
+                rep.violated('R18.11', inst, where, 'no limit test of an array element at the same loop level dominates `%s`: a coefficient of magnitude 1 or more wraps in the shift and an unstable filter is reported with a positive inverse gain' % sx.show(x)[:60],
+                             key='%s:rc-limit:%s' % (f.name, 'loop' if inner(b) is not None else 'tail'))
+    return n
+
+
 def check(rep, prog, tier):
+    r18_11(rep, prog)
     r18_10(rep, prog)
     r18_7(rep, prog)
     r18_8(rep, prog)
